@@ -123,6 +123,11 @@ func NewTextStyle(style pr.StyleAccessor, ignoreSpacing bool) *TextStyle {
 
 	out.FontLanguageOverride = newFontLanguageOverrride(style.GetFontLanguageOverride())
 	out.Lang = style.GetLang().S
+	if !isLanguageTag(out.Lang) {
+		// not a language tag (the value comes from the document):
+		// ignore it, as the text shaper expects well formed tags
+		out.Lang = ""
+	}
 
 	out.TextDecorationLine = style.GetTextDecorationLine()
 
@@ -886,4 +891,28 @@ var lstToISO = map[fontLanguageOverride]string{
 	{'z', 'h', 's'}:      "zho",
 	{'z', 'h', 't'}:      "zho",
 	{'z', 'n', 'd'}:      "zne",
+}
+
+// isLanguageTag returns true if [s] has the general shape of a BCP 47 language tag:
+// a primary subtag of 2 to 8 letters, followed by subtags of 1 to 8 letters or digits,
+// separated by '-'.
+func isLanguageTag(s string) bool {
+	start := 0
+	for i := 0; i <= len(s); i++ {
+		if i < len(s) && s[i] != '-' {
+			c := s[i]
+			isLetter := 'a' <= c && c <= 'z' || 'A' <= c && c <= 'Z'
+			isDigit := '0' <= c && c <= '9'
+			if !(isLetter || (isDigit && start != 0)) {
+				return false
+			}
+			continue
+		}
+		// end of a subtag (a single letter primary subtag is not a language)
+		if L := i - start; L < 1 || L > 8 || (start == 0 && L < 2) {
+			return false
+		}
+		start = i + 1
+	}
+	return true
 }
